@@ -598,6 +598,7 @@ let point_name (ts : tstate) : string =
   | RScanned _ -> "remove.scanned" | RRScanned _ -> "remove_range.scanned"
   | GLooked _ -> "read.looked_up" | GOpen _ | GOpenL _ -> "cas.open_blob"
   | OLockI _ -> "orphan.lock_I" | OUnlink _ -> "orphan.unlink"
+  | IRead -> "read.lock_S"
 let cres_str = function
   | CUnit -> "ok" | CBool b -> if b then "ok:true" else "ok:false" | CNum x -> "ok:" ^ decimal_of_n x
   | CBytes None -> "none" | CBytes (Some b) -> "bytes:" ^ show_content (string_of_bytes b)
@@ -605,6 +606,8 @@ let cres_str = function
   | CMissing -> "err:BlobDataMissing"
   | COrphans (d, sk) -> Printf.sprintf "orphans:del=%s,skip=%s" (decimal_of_n d) (decimal_of_n sk)
   | CErr -> "err:fault"
+  | CInvalid -> "err:invalid-range"
+  | CKeys ks -> "keys:[" ^ String.concat ";" (List.map hex_of_bytes ks) ^ "]"
 let parse_ccall (toks : string list) (orphans : bytes list) : ccall =
   match toks with
   | ["put"; k; cs] -> KPut (key_of k, concat (parse_chunks cs))
@@ -613,7 +616,10 @@ let parse_ccall (toks : string list) (orphans : bytes list) : ccall =
   | ["abort"; k] -> KAbort (key_of k, [])
   | ["remove"; k] -> KRemove (key_of k)
   | ["remove_range"; a; b] -> KRemoveRange (parse_bound a, parse_bound b)
-  | ["get"; k] | ["reader"; k] | ["range"; k] -> KGet (key_of k)      (* three entry points, one read path *)
+  | ["get"; k] | ["reader"; k] -> KGet (key_of k)      (* two entry points, one read path *)
+  | ["range"; k] -> KGetRange (key_of k, n_of_decimal "0", n_of_decimal "18446744073709551615")
+  | ["range"; k; a; b] -> KGetRange (key_of k, n_of_decimal a, n_of_decimal b)
+  | ["iter"] -> KIter
   | ["size"; k] -> KGetSize (key_of k)
   | ["checkpoint"] -> KCheckpoint
   | ["delorphans"] -> KDelOrphans orphans
